@@ -358,6 +358,47 @@ var realCheck = &core.Check{Name: "c16/real", Fn: func(c *core.Ctx) error {
 			}
 		}
 	}
+	// one Transaction variable reused for several decodes must always describe the last decode
+	{
+		cells, err := boc.DeserializeBoc(data)
+		if err != nil {
+			return err
+		}
+		var block tlb.Block
+		if err := tlb.NewDecoder().Unmarshal(cells[0], &block); err != nil {
+			return err
+		}
+		txs := block.AllTransactions()
+		var reused tlb.Transaction
+		for i := 0; i < len(txs) && i < 12; i++ {
+			src, err := txs[i].SourceBoc()
+			if err != nil {
+				return err
+			}
+			cc, err := boc.DeserializeBoc(src)
+			if err != nil {
+				return err
+			}
+			if err := tlb.Unmarshal(cc[0], &reused); err != nil {
+				return fmt.Errorf("re-decoding a transaction from its SourceBoc: %v", err)
+			}
+			want := txs[i].Hash()
+			if reused.Hash() != want {
+				return fmt.Errorf("Transaction variable reused for decode #%d reports hash %x, the decoded cell hashes to %x", i+1, reused.Hash(), want)
+			}
+			again, err := reused.SourceBoc()
+			if err != nil {
+				return err
+			}
+			rr, err := ref.ParseBOC(again)
+			if err != nil || len(rr) != 1 || !bytes.Equal(rr[0].ReprHash(), want[:]) {
+				return fmt.Errorf("Transaction variable reused for decode #%d: SourceBoc parses to another cell than the one just decoded (%x)", i+1, want)
+			}
+			if i%3 == 0 { // ask twice: a cached answer must still be the right one
+				reused.SourceBoc()
+			}
+		}
+	}
 	if len(hashesByWay[0]) != len(hashesByWay[1]) {
 		return fmt.Errorf("decoding with and without a caching hasher finds %d vs %d transactions", len(hashesByWay[0]), len(hashesByWay[1]))
 	}
